@@ -151,6 +151,10 @@ type ethAPI struct {
 	node string
 }
 
+// ErrAnswerNull, returned by Gate, makes a block lookup answer JSON null ("unknown block": a
+// lagging node behind a load balancer), which the client reports as ethereum.NotFound.
+var ErrAnswerNull = errors.New("simeth: answer null")
+
 func (a *ethAPI) gate(method, key string) error {
 	var err error
 	if a.c.Gate != nil {
@@ -192,6 +196,9 @@ func (a *ethAPI) resolve(nr rpc.BlockNumber) *Block {
 
 func (a *ethAPI) GetBlockByNumber(ctx context.Context, nr rpc.BlockNumber, full bool) (map[string]any, error) {
 	if err := a.gate("eth_getBlockByNumber", fmt.Sprint(int64(nr))); err != nil {
+		if err == ErrAnswerNull {
+			return nil, nil
+		}
 		return nil, err
 	}
 	b := a.resolve(nr)
@@ -203,6 +210,9 @@ func (a *ethAPI) GetBlockByNumber(ctx context.Context, nr rpc.BlockNumber, full 
 
 func (a *ethAPI) GetBlockByHash(ctx context.Context, h common.Hash, full bool) (map[string]any, error) {
 	if err := a.gate("eth_getBlockByHash", h.Hex()[:10]); err != nil {
+		if err == ErrAnswerNull {
+			return nil, nil
+		}
 		return nil, err
 	}
 	b := a.c.byHash[h]
